@@ -504,10 +504,18 @@ sets it, so for every run no motion is ever deactivated and `nn_` holds every mo
 in creation order. -/
 theorem csst_never_prunes {δ : Type} (P : CSST.Problem S U δ) (starts : List S)
     (draws : List (CSST.Draw S U)) :
-    (∀ i, (CSST.solve P starts draws).final.inactive.getD i false = false) ∧
+    (CSST.solve P starts draws).final.inactive.size = (CSST.solve P starts draws).final.tree.size ∧
+    (∀ i, i < (CSST.solve P starts draws).final.tree.size →
+      (CSST.solve P starts draws).final.inactive[i]? = some false) ∧
     (CSST.solve P starts draws).final.nn = List.range (CSST.solve P starts draws).final.tree.size := by
+  -- (round 10, lap 2: stated with `[i]? = some false` for every motion index and the size equation; the former statement
+  -- `inactive.getD i false = false` would also have held of a flag array that is too short)
   have h := CSST.solve_final_inv P starts draws
-  exact ⟨fun i => by rw [Array.getD_eq_getD_getElem?]; exact h.inact i, h.nn⟩
+  refine ⟨h.isz, fun i hi => ?_, h.nn⟩
+  have hlt : i < (CSST.solve P starts draws).final.inactive.size := by rw [h.isz]; exact hi
+  have hi2 := h.inact i
+  rw [Array.getElem?_eq_getElem hlt] at hi2 ⊢
+  simpa using hi2
 
 /-- a run in which a representative *is* replaced (unit cost per motion, `pruningRadius = 0`: the
 witness at state 2 first gets the motion reached via 0→1→2 at cost 2, then the direct motion 0→2 at
@@ -1551,7 +1559,10 @@ re-allocations, `sample`, `sampleStepCount` and `sampleTo` calls on ONE sampler 
 meets `OutOK` for `confAfter st.conf (ops.take i)` — the configuration produced by the setters before it, computed
 independently of the machine: a sampled control is within the current bounds; a step count within the requested range;
 `sampleTo` returns a control within the current bounds, at most the current `maxControlDuration` steps, the exact
-all-valid propagation of the source under the current step size. -/
+all-valid propagation of the source under the current step size; `steerTo` (`SteeredControlSampler::sampleTo`) returns the
+steering function's control, at most `toSteps duration (current step size)` steps (fewer only when the next step is
+invalid), again the exact all-valid propagation under the current step size — its control is the USER's steering
+function's, and its step count is not clamped to `[min, max]ControlDuration` (as coded; the planners test `≥ min`). -/
 theorem reconf_draws_in_current_bounds {α ρ S δ : Type} (le : α → α → Prop) (P : Params α ρ S δ) (hd : DrawOK le P)
     (st : St α ρ) (ops : List (Op α ρ S)) (hc : ConfOK le st.conf) (ho : ∀ op ∈ ops, OpOK le op)
     (i : Nat) (op : Op α ρ S) (hi : ops[i]? = some op) :
@@ -1594,6 +1605,12 @@ def showOut : Out Nat Nat → Option (Int × Nat × Nat)
 example : (run reconfP false reconfSt
     [.sample, .setBounds (.disc 0 3), .sample, .sampleTo 0 50, .setMinMax 1 2, .setStep 2, .sampleTo 0 50]).map showOut =
     [some (7, 0, 0), none, some (3, 0, 0), some (3, 3, 9), none, none, some (3, 2, 12)] := by decide
+
+/-- non-vacuity of the `steerTo` clause (`SteeredControlSampler`): the steering function asks for a duration of 6; with step size
+1 that is 6 steps, after `setPropagationStepSize(2)` the same sampler object takes 3 steps — the state reached is the same -/
+example : (run { reconfP with steer := fun a b => if a < b then some (.disc 1, b - a) else none, toSteps := fun d dt => d / dt }
+    false reconfSt [.steerTo 0 6, .setStep 2, .steerTo 0 6, .steerTo 6 6]).map showOut =
+    [some (1, 6, 6), none, some (1, 3, 6), none] := by decide
 
 /-- **the sampler that copies the bounds when it is allocated violates the clause** (`cached = true`; the as-coded machine
 on the same history does not): allocated for the range `[0, 7]`, the space is narrowed to `[0, 3]`, the next draw is `7`. -/
